@@ -11,14 +11,13 @@
 (*   index among the maximisers, because it scans upwards with a strict '>' - is the Impl layer (ImplSeq). *)
 (* K-means (clustering.c:975-1255): labels in range, count_c * centroid_c = sum of the members of c,       *)
 (*   every object labelled by a nearest centroid up to the documented convergence tolerance.              *)
-EXTENDS Integers, Sequences, FiniteSets, TLC, Json
+EXTENDS Integers, Sequences, FiniteSets, TLC, Json, Affine      \* Affine: Abs, MaxOf, tolerances of the translated / scaled input classes
 CONSTANTS NMin, NMax,      \* point sets of NMin..NMax points
           Dim, Grid,       \* in {0..Grid}^Dim
           EmitMod          \* GEN emits the point sets whose coordinate sum is divisible by EmitMod (1 = all)
 
 Range(f) == {f[i] : i \in DOMAIN f}
 Sq(a) == a * a
-Abs(a) == IF a < 0 THEN -a ELSE a
 Lowest(S) == CHOOSE i \in S : \A j \in S : i <= j
 Distinct(seq) == \A a, b \in DOMAIN seq : a # b => seq[a] # seq[b]
 
@@ -133,6 +132,17 @@ RankFormAgrees == phase = "case" =>
    IN /\ AdmissibleR(D, c, s) /\ LowestTieR(D, s)
       /\ \A y \in 1..Len(X) : LET t == [s EXCEPT ![Len(s)] = y]
                                IN (AdmissibleR(D, c, t) <=> Admissible(metric, X, t)) /\ (LowestTieR(D, t) /\ Distinct(t) <=> LowestTie(metric, X, t) /\ Distinct(t))
+(* classes K3 / K4: what C17 states about a selection is invariant under translating the columns (alternating signs) and   *)
+(* scaling the data, so the selections the library returns on the translated / scaled matrix are judged on the logged     *)
+(* integer points x (exact arithmetic: n (o + s x) - (n o + s S) = s (n x - S), every distance is multiplied by s or s^2) *)
+AffImage(P, o, s) == [i \in 1..Len(P) |-> [d \in 1..Len(P[i]) |-> (IF d % 2 = 1 THEN o ELSE -o) + P[i][d] * s]]
+AffineInvariant == phase = "case" =>
+   LET Y == AffImage(X, 1000000, 1000)
+       s == MaxDisImpl(metric, X, n)
+   IN /\ FirstSet(Y) = FirstSet(X)
+      /\ MaxDisImpl(metric, Y, n) = s
+      /\ \A k \in 1..(Len(s) - 1) : NextSet(metric, Y, SubSeq(s, 1, k)) = NextSet(metric, X, SubSeq(s, 1, k))
+      /\ \A y \in 1..Len(X) : LET t == [s EXCEPT ![Len(s)] = y] IN Admissible(metric, Y, t) <=> Admissible(metric, X, t)
 (* GEN: one replay case per point set *)
 RECURSIVE CoordSum(_, _)
 CoordSum(P, m) == IF m = 0 THEN 0
